@@ -26,6 +26,25 @@ C11 driver.  Case lines (`-` = empty string; flags are 0/1; sides = both|client|
       one request sent straight to the compiled generated server (no router in front)
   regen
       run the real `codegen` binary on a scratch copy and byte-compare with the committed files
+  px <via> <knobs> <emit> <arc> <stubs> <sides> <wkt> <proto_path> <extern> <k>
+     { <file> <pkg> <service> <n> { 11 tokens as in `prost` }^n }^k
+      the prost front end on a descriptor SET (several services per file / files per package /
+      packages), through the entry point <via>, with the builder knobs <knobs> (none of which the
+      model reads: they must be invisible); observed `svcs <k>` + one `prost`-style block each
+  gx <knobs> <gen tail>       `gen` with deprecated / commented methods, attributes, disable_comments
+  gseq <k> { <ntok> <sc|cs> <gen tail> }^k
+      ONE `CodeGenBuilder` value: before each generation only the setters whose value changes are
+      called; model = `Codegen.BState.run` on that very sequence of calls
+  mx <transport> <sides> <k> { <pkg> <name> <n> { 6 tokens as in `manual` }^n }^k
+      `manual::Builder::compile` on several services
+  cseq <ctor> <mode> <wrap> <n> { pool block }^n target <pool block> <ncalls> { <j> }^ncalls
+      ONE compiled generated client of pool service `target`, made by <ctor>, used for the calls
+      j… in turn / on clones / concurrently (<mode>) against a router holding the listed servers;
+      call k carries k+1 payload bytes.  Observed per call: the path and the `GrpcMethod`
+      extension a tap between client and router saw, and the answer:
+      calls <ncalls> { <path> <gm service> <gm method> (ok <nvals> <vals…> | err <code>) }^ncalls seen <requests>
+  cmt <which> <pkg> <service> <n> { <method> <cs> <ss> <inProto> <outProto> }^n
+      the COMMITTED generated file of that crate against its own committed descriptor set
 Observed / model line for gen|manual|prost:
   name <SERVICE_NAME> <NamedService::NAME>
   server <n> { <literal> <grpc call> <trait> <reqStream> <respStream> <req> <resp> <trait-fn req> <trait-fn resp> <fn> }^n
@@ -159,25 +178,34 @@ def parseJob : List String → Option Job
           ms.map (·.2.1), ms.all (·.2.2)⟩
   | _ => none
 
-def renderJob (j : Job) : String :=
-  let fnTok (x : Bytes) : String := if j.fnKnown then sh x else "="
+/-- one `name … server … client …` block -/
+def renderOut (fnKnown : Bool) (name : Option Bytes) (arms : Option (List ServerArm))
+    (calls : Option (List ClientCall)) : String :=
+  let fnTok (x : Bytes) : String := if fnKnown then sh x else "="
   let head :=
-    if j.server then
-      s!"name {sh (serviceNameConst j.svc j.opts)} {sh (serviceNameConst j.svc j.opts)}"
-    else "name - -"
+    match arms, name with
+    | some _, some n => s!"name {sh n} {sh n}"
+    | _, _ => "name - -"
   let server :=
-    if j.server then
-      let arms := serverArms j.svc j.opts
-      String.intercalate " " (s!"server {arms.length}" :: arms.map (fun a =>
+    match arms with
+    | some arms =>
+      String.intercalate " " (s!"server {arms.length}" :: arms.map (fun (a : ServerArm) =>
         s!"{sh a.literal} {callTok a.call} {traitTok a.svcTrait} {showFlag a.reqStream} {showFlag a.respStream} {sh a.req} {sh a.resp} {sh a.traitReq} {sh a.traitResp} {fnTok a.fn}"))
-    else "server -"
+    | none => "server -"
   let client :=
-    if j.client then
-      let cs := clientCalls j.svc j.opts
-      String.intercalate " " (s!"client {cs.length}" :: cs.map (fun c =>
+    match calls with
+    | some cs =>
+      String.intercalate " " (s!"client {cs.length}" :: cs.map (fun (c : ClientCall) =>
         s!"{fnTok c.fn} {sh c.path} {sh c.gmService} {sh c.gmMethod} {callTok c.call} {showFlag c.reqStream} {showFlag c.respStream} {sh c.req} {sh c.resp}"))
-    else "client -"
+    | none => "client -"
   s!"{head} {server} {client}"
+
+/-- the requested sides of what was generated for the job's service -/
+def renderGenerated (j : Job) (g : Output) : String :=
+  renderOut j.fnKnown (some g.serviceName) (if j.server then some g.arms else none)
+    (if j.client then some g.calls else none)
+
+def renderJob (j : Job) : String := renderGenerated j (generate j.svc j.opts)
 
 /- ---- parsing the observed line into the spec's vocabulary ---- -/
 
@@ -207,13 +235,12 @@ def parseSide (w : Nat) : List String → Option (Option (List (List String)) ×
     some (some bl, r)
   | [] => none
 
-def parseSeen : List String → Option Seen
+def parseSeenRest : List String → Option (Seen × List String)
   | "name" :: sn :: nn :: "server" :: rest => do
     let (sb, rest) ← parseSide 10 rest
     match rest with
     | "client" :: rest =>
       let (cb, rest) ← parseSide 9 rest
-      if !rest.isEmpty then none
       let server ← match sb with
         | some bl => (bl.mapM serverObs?).map some
         | none => some none
@@ -221,10 +248,23 @@ def parseSeen : List String → Option Seen
         | some bl => (bl.mapM clientObs?).map some
         | none => some none
       let opt (s : String) : Option Bytes := if s == "-" then none else some (b s)
-      some ⟨opt sn, opt nn, server, (sb.getD []).map (fun l => l.getLast!),
-            client, (cb.getD []).map (fun l => l.head!)⟩
+      some (⟨opt sn, opt nn, server, (sb.getD []).map (fun l => l.getLast!),
+            client, (cb.getD []).map (fun l => l.head!)⟩, rest)
     | _ => none
   | _ => none
+
+def parseSeen (obs : List String) : Option Seen :=
+  match parseSeenRest obs with
+  | some (o, []) => some o
+  | _ => none
+
+/-- `k` blocks, one after the other -/
+def parseSeens : Nat → List String → Option (List Seen × List String)
+  | 0, rest => some ([], rest)
+  | k + 1, rest => do
+    let (o, rest) ← parseSeenRest rest
+    let (os, rest) ← parseSeens k rest
+    some (o :: os, rest)
 
 /-- the service definition in the spec's vocabulary; the message types are those the definition
 calls for (`want`), not what the model computes -/
@@ -232,14 +272,11 @@ def specDef (j : Job) : Spec.Codegen.ServiceDef :=
   ⟨j.svc.package, j.svc.ident, (j.svc.methods.zip j.want).map (fun (m, w) =>
     ⟨m.ident, m.clientStreaming, m.serverStreaming, w.1, w.2⟩)⟩
 
-def judge (j : Job) (obs : List String) : String :=
-  match parseSeen obs with
-  | none => "fail:generator-output-not-understood"
-  | some o =>
+def clauses (j : Job) (o : Seen) : List (String × Bool) :=
     let d := specDef j
     let pkgShown := if j.opts.emitPackage then j.svc.package else []
     let svc := Spec.Codegen.fullName pkgShown d.ident
-    verdict [
+    [
       ("prost-build-output-as-assumed", j.premises),
       ("requested-sides-generated", o.client.isSome == j.client && o.server.isSome == j.server),
       ("service-name-is-path-prefix", !j.server || (o.serviceName == some svc && o.namedName == some svc)),
@@ -252,6 +289,175 @@ def judge (j : Job) (obs : List String) : String :=
         | some cs, some ss => Spec.Codegen.sidesAgree cs ss && o.clientFns == o.serverFns
         | _, _ => true),
       ("conforms", Spec.Codegen.conforms pkgShown d (if j.server then o.serviceName else none) o.client o.server)]
+
+def judge (j : Job) (obs : List String) : String :=
+  match parseSeen obs with
+  | none => "fail:generator-output-not-understood"
+  | some o => verdict (clauses j o)
+
+/-- several services in one case: every service is judged on its own definition and the options
+of the case (of its step); the verdict names every clause some service fails -/
+def judgeAll (js : List Job) (obs : List String) : String :=
+  match obs with
+  | "svcs" :: k :: rest =>
+    if nat? k != some js.length then "fail:generator-output-not-understood" else
+    match parseSeens js.length rest with
+    | some (os, []) => verdict ((js.zip os).flatMap (fun (j, o) => clauses j o))
+    | _ => "fail:generator-output-not-understood"
+  | _ => "fail:generator-output-not-understood"
+
+def renderAll (blocks : List String) : String :=
+  String.intercalate " " (s!"svcs {blocks.length}" :: blocks)
+
+/- ---- the dimension audit's case kinds ---- -/
+
+def knobNames : List String :=
+  ["dep0", "dep1", "comm", "nocomm", "attrs", "codec", "notr", "tattr", "incl", "fdsp"]
+
+def knobsOk (allowed : List String) (s : String) : Bool :=
+  s == "-" || (s.splitOn ",").all (fun k => allowed.contains k)
+
+/-- `k` blocks `<hdr tokens> <n> { w tokens }^n` → per block (hdr, n :: method tokens) -/
+def svcBlocks (hdr w : Nat) : Nat → List String → Option (List (List String × List String) × List String)
+  | 0, rest => some ([], rest)
+  | k + 1, rest => do
+    if rest.length < hdr + 1 then none
+    let h := rest.take hdr
+    let n ← nat? (rest.getD hdr "")
+    let body := rest.drop (hdr + 1)
+    if body.length < n * w then none
+    let (bs, r) ← svcBlocks hdr w k (body.drop (n * w))
+    some ((h, toString n :: body.take (n * w)) :: bs, r)
+
+def vias : List String := ["fds", "fdscfg", "sgen", "skip", "protos", "protoscfg", "free", "freep"]
+
+/-- `px`: the set's services, each as the `prost` job it would be alone.  `<via>` and `<knobs>`
+are not handed on: the model has no place for them. -/
+def parsePx : List String → Option (List Job)
+  | via :: knobs :: emit :: arc :: stubs :: sides :: wkt :: ppath :: ext :: k :: rest => do
+    if !vias.contains via || !knobsOk knobNames knobs then none
+    let k ← nat? k
+    if k == 0 then none
+    let (bl, r) ← svcBlocks 3 11 k rest
+    if !r.isEmpty then none
+    bl.mapM (fun (h, body) =>
+      match h with
+      | [_file, pkg, svc] => parseJob ("prost" :: emit :: arc :: stubs :: sides :: wkt :: ppath :: ext :: pkg :: svc :: body)
+      | _ => none)
+  | _ => none
+
+def handlePx (rest obs : List String) : String × String :=
+  match parsePx rest with
+  | none => bad
+  | some js =>
+    match js with
+    | [] => bad
+    | j0 :: _ =>
+      -- one front-end builder, hence one option set, for the whole descriptor set
+      let outs := generateSet (js.map (·.svc)) j0.opts
+      (renderAll ((js.zip outs).map (fun (j, g) => renderGenerated j g)), judgeAll js obs)
+
+def handleMx (rest obs : List String) : String × String :=
+  match rest with
+  | tr :: sides :: k :: rest =>
+    match nat? k with
+    | none => bad
+    | some k =>
+      match svcBlocks 2 6 k rest with
+      | some (bl, []) =>
+        match bl.mapM (fun (h, body) =>
+            match h with
+            | [pkg, name] => parseJob ("manual" :: tr :: sides :: pkg :: name :: body)
+            | _ => none) with
+        | none => bad
+        | some js =>
+          let o : Opts := ⟨true, false, []⟩
+          let outs := generateSet (js.map (·.svc)) o
+          (renderAll ((js.zip outs).map (fun (j, g) => renderGenerated j g)), judgeAll js obs)
+      | _ => bad
+  | _ => bad
+
+def handleGx (rest obs : List String) : String × String :=
+  match rest with
+  | knobs :: tail =>
+    if !knobsOk (knobNames.take 6) knobs then bad else
+    match parseJob ("gen" :: tail) with
+    | some j => (renderJob j, judge j obs)
+    | none => bad
+  | _ => bad
+
+/-- `gseq` steps: (order, job) -/
+def gseqSteps : Nat → List String → Option (List (String × Job) × List String)
+  | 0, rest => some ([], rest)
+  | k + 1, n :: order :: rest => do
+    let n ← nat? n
+    if rest.length < n || !(order == "sc" || order == "cs") then none
+    let j ← parseJob ("gen" :: rest.take n)
+    let (ss, r) ← gseqSteps k (rest.drop n)
+    some ((order, j) :: ss, r)
+  | _, _ => none
+
+/-- the calls the harness makes on its one builder for a step: the setters whose value changes,
+then the generations in the step's order -/
+def stepOps (st : BState) (order : String) (j : Job) : List BOp :=
+  (if j.opts.emitPackage != st.emitPackage then [BOp.emitPackage j.opts.emitPackage] else []) ++
+  (if j.opts.compileWkt != st.compileWkt then [BOp.compileWkt j.opts.compileWkt] else []) ++
+  [BOp.other] ++
+  (let s := if j.server then [BOp.genServer j.svc j.opts.protoPath] else []
+   let c := if j.client then [BOp.genClient j.svc j.opts.protoPath] else []
+   if order == "sc" then s ++ c else c ++ s)
+
+def runSteps (st : BState) : List (String × Job) → List String
+  | [] => []
+  | (order, j) :: rest =>
+    let ops := stepOps st order j
+    let outs := st.run ops
+    let server := outs.findSome? (fun | .server n a => some (n, a) | _ => none)
+    let client := outs.findSome? (fun | .client c => some c | _ => none)
+    renderOut j.fnKnown (server.map (·.1)) (server.map (·.2)) client :: runSteps (st.after ops) rest
+
+def handleGseq (rest obs : List String) : String × String :=
+  match rest with
+  | k :: rest =>
+    match nat? k with
+    | none => bad
+    | some k =>
+      match gseqSteps k rest with
+      | some (steps, []) => (renderAll (runSteps {} steps), judgeAll (steps.map (·.2)) obs)
+      | _ => bad
+  | _ => bad
+
+/-- `cmt`: the committed file was made by `tonic_build::configure()` as `codegen` calls it
+(package emitted, well-known types not compiled, `proto_path` = `super`, both sides).  Every
+message of the three committed services is a top-level message of the service's own package with
+a canonical name, which prost names by that name (checked: else the premise clause fails). -/
+def handleCmt (rest obs : List String) : String × String :=
+  match rest with
+  | _which :: pkg :: svc :: n :: rest =>
+    match nat? n with
+    | none => bad
+    | some n =>
+      match blocks 5 n rest with
+      | some (bl, []) =>
+        let pre := [46] ++ b pkg ++ [46]
+        let ms := bl.mapM (fun
+          | [m, cs, ss, ip, op] => do
+            let cs ← flag? cs
+            let ss ← flag? ss
+            let ir := (b ip).drop pre.length
+            let or := (b op).drop pre.length
+            let okShape := pre.isPrefixOf (b ip) && pre.isPrefixOf (b op) && !ir.contains 46 && !or.contains 46
+            some ((⟨[], b m, cs, ss, .prost (b ip) ir, .prost (b op) or⟩ : Method),
+                  (Spec.Codegen.typePath superPath true ir, Spec.Codegen.typePath superPath true or), okShape)
+          | _ => none)
+        match ms with
+        | none => bad
+        | some ms =>
+          let j : Job := ⟨⟨[], b pkg, b svc, ms.map (·.1)⟩, ⟨true, false, superPath⟩, true, true, false,
+            ms.map (·.2.1), ms.all (·.2.2)⟩
+          (renderJob j, judge j obs)
+      | _ => bad
+  | _ => bad
 
 /- ---- end-to-end through compiled generated code ---- -/
 
@@ -376,6 +582,92 @@ def handleSrv (rest obs : List String) : String × String :=
       (model, v)
   | _ => bad
 
+def ctors : List String := ["new", "origin", "origin-slash", "icept", "conf", "cloned"]
+def modes : List String := ["same", "clones", "clone-used", "conc"]
+
+/-- `ok <n> <vals…>` from `values`' `ok <vals…>` -/
+def countedValues (idx j kind payload : Nat) : String :=
+  let vs := ((values idx j kind payload).splitOn " ").drop 1
+  String.intercalate " " ("ok" :: toString vs.length :: vs)
+
+/-- one observed call: (path, gm service, gm method, answer tokens joined) -/
+def obsCalls : Nat → List String → Option (List (String × String × String × String) × List String)
+  | 0, rest => some ([], rest)
+  | k + 1, p :: gs :: gm :: "ok" :: n :: rest => do
+    let n ← nat? n
+    if rest.length < n then none
+    let (cs, r) ← obsCalls k (rest.drop n)
+    some ((p, gs, gm, String.intercalate " " ("ok" :: toString n :: rest.take n)) :: cs, r)
+  | k + 1, p :: gs :: gm :: "err" :: code :: rest => do
+    let (cs, r) ← obsCalls k rest
+    some ((p, gs, gm, s!"err {code}") :: cs, r)
+  | _, _ => none
+
+/-- `cseq`: the constructor and the way the one client value is used (<ctor>, <mode>) are not
+handed to the model: every call is predicted as the `e2e` call it would be alone. -/
+def handleCseq (rest obs : List String) : String × String :=
+  match rest with
+  | ctor :: mode :: _wrap :: n :: rest =>
+    if !ctors.contains ctor || !modes.contains mode then bad else
+    match nat? n with
+    | none => bad
+    | some n =>
+      match poolSvcs n rest with
+      | some (reg, "target" :: rest) =>
+        match poolSvc? rest with
+        | some (t, nc :: js) =>
+          match nat? nc, js.mapM nat? with
+          | some nc, some js =>
+            if js.length != nc || nc == 0 || nc > 40 || js.any (fun j => j ≥ t.methods.length) then bad else
+            let cc := clientCalls t.desc t.opts
+            let rreg : List Router.Svc := reg.map (fun p => ⟨serviceNameConst p.desc p.opts, p.desc.methods.map (·.ident)⟩)
+            let nreqOf (kind : Nat) : Nat := if kind == 2 || kind == 3 then 2 else 1
+            let modelCall (k j : Nat) : String :=
+              match cc[j]?, t.methods[j]? with
+              | some c, some (_, ckind) =>
+                let ans :=
+                  match Router.dispatch rreg c.path with
+                  | .handler s m =>
+                    match reg.find? (fun (p : PoolSvc) => serviceNameConst p.desc p.opts == s) with
+                    | some p =>
+                      match findIdx (fun (rm : Bytes × Nat) => rm.1 == m) p.methods 0 with
+                      | some (mj, (_, skind)) => countedValues p.idx mj skind ((k + 1) * nreqOf ckind)
+                      | none => "model-error"
+                    | none => "model-error"
+                  | .panic => "panic"
+                  | _ => "err 12"
+                s!"{sh c.path} {sh c.gmService} {sh c.gmMethod} {ans}"
+              | _, _ => "model-error"
+            let idxs := List.range nc
+            let model := String.intercalate " "
+              (s!"calls {nc}" :: (idxs.zip js).map (fun (k, j) => modelCall k j)) ++ s!" seen {nc}"
+            -- spec, without the model
+            let want := t.want
+            let registered := reg.any (fun p => p.idx == t.idx)
+            let dup := Router.hasDup (reg.map PoolSvc.want)
+            let v :=
+              match obs with
+              | "calls" :: k :: rest =>
+                match obsCalls nc rest with
+                | some (cs, ["seen", seen]) =>
+                  if nat? k != some nc then "fail:no-response-observed" else
+                  verdict (("one-request-per-call", nat? seen == some nc) ::
+                    ((idxs.zip js).zip cs).flatMap (fun ((k, j), (p, gs, gm, ans)) =>
+                      match t.methods[j]? with
+                      | some (route, ckind) =>
+                        [("client-sends-to-the-declared-path", b p == Spec.Codegen.methodPath want route),
+                         ("grpc-method-extension-names-the-call", b gs == want && b gm == route),
+                         ("call-reaches-the-named-method-whatever-the-clients-history",
+                           dup || ans == (if registered then countedValues t.idx j ckind ((k + 1) * nreqOf ckind) else "err 12"))]
+                      | none => [("bad-case", false)]))
+                | _ => "fail:no-response-observed"
+              | _ => "fail:no-response-observed"
+            (model, v)
+          | _, _ => bad
+        | _ => bad
+      | _ => bad
+  | _ => bad
+
 /-- The files the property names (and the descriptor-set files the same run writes). -/
 def committed : List String :=
   ["tonic-health/grpc_health_v1.rs", "tonic-health/grpc_health_v1_fds.rs",
@@ -395,6 +687,12 @@ def handle (case obs : List String) : String × String :=
     (model, v)
   | "e2e" :: rest => handleE2e rest obs
   | "srv" :: rest => handleSrv rest obs
+  | "px" :: rest => handlePx rest obs
+  | "mx" :: rest => handleMx rest obs
+  | "gx" :: rest => handleGx rest obs
+  | "gseq" :: rest => handleGseq rest obs
+  | "cmt" :: rest => handleCmt rest obs
+  | "cseq" :: rest => handleCseq rest obs
   | _ =>
     match parseJob case with
     | some j => (renderJob j, judge j obs)
